@@ -16,6 +16,14 @@ def main(argv=None):
     if tier not in ("quick", "thorough"):
         tier = "quick"
     boot.assert_repo()
+    if a.property.lower() == "selftest":
+        from . import selftest
+
+        fails = selftest.run()
+        for f in fails:
+            print("SELFTEST-FAILURE " + f)
+        print("selftest: %d cases, %d failures" % (selftest.count(), len(fails)))
+        return 2 if fails else 0
     pid = a.property.upper()
     if a.replay:
         return run.replay(pid, a.replay)
